@@ -13,14 +13,21 @@ def statusName : RecStatus → String
 def sha := WebPkg.Sha256.sha256
 
 /-- run explicit read sizes, then keep reading with 4096-byte buffers until a non-ok status -/
-partial def runReads (st : State) (sizes : List Nat) (acc : Bytes) (counts : List Nat) : Bytes × List Nat × RecStatus :=
+partial def runReads (st : State) (sizes : List Nat) (acc : Bytes) (counts : List Nat) : State × Bytes × List Nat × RecStatus :=
   match sizes with
   | n :: rest =>
     let (st', bs, s) := read sha st n
-    if s == .ok then runReads st' rest (acc ++ bs) (bs.length :: counts) else (acc, counts.reverse, s)
+    if s == .ok then runReads st' rest (acc ++ bs) (bs.length :: counts) else (st', acc, counts.reverse, s)
   | [] =>
     let (st', bs, s) := read sha st 4096
-    if s == .ok then runReads st' [] (acc ++ bs) counts else (acc, counts.reverse, s)
+    if s == .ok then runReads st' [] (acc ++ bs) counts else (st', acc, counts.reverse, s)
+
+/-- `k` further Reads after the decoder reported its first non-ok status: what each hands out, and its status -/
+def moreReads (st : State) : Nat → List String
+  | 0 => []
+  | k + 1 =>
+    let (st', bs, s) := read sha st 4096
+    s!"{toHex bs}:{statusName s}" :: moreReads st' k
 
 def handleMice (op : String) (args : List String) : Option String :=
   match op, args with
@@ -56,8 +63,21 @@ def handleMice (op : String) (args : List String) : Option String :=
     | .error .validation => pure "nderr errval"
     | .error .other => pure "nderr errother"
     | .ok s0 =>
-      let (out, counts, s) := runReads s0 szs [] []
+      let (_, out, counts, s) := runReads s0 szs [] []
       pure s!"{toHex out} {",".intercalate (counts.map toString)} {statusName s}"
+  | "mice.dec.more", [_, d, mx, dg, st, sizes, k] => do
+    let enc ← parseEnc d
+    let m ← mx.toNat?
+    let digest ← ofHex dg
+    let stream ← ofHex st
+    let kk ← k.toNat?
+    let szs ← if sizes == "-" then some [] else (sizes.splitOn ",").mapM (·.toNat?)
+    match newDecoder sha enc stream digest m with
+    | .error .validation => pure "nderr errval"
+    | .error .other => pure "nderr errother"
+    | .ok s0 =>
+      let (st1, out, counts, s) := runReads s0 szs [] []
+      pure s!"{toHex out} {",".intercalate (counts.map toString)} {statusName s} {",".intercalate (moreReads st1 kk)}"
   | _, _ => none
 
 end WebPkg.Driver
